@@ -404,11 +404,91 @@ func partReceipts(c *check.Ctx, a *acc) {
 	a.add(st.submitted, nontrivial, "C19: valid triples (harness-signed) and every single-field corruption (hash bit flip, receipt edit, signature of 64/66 bytes, recovery id >= 4, r or s zero / = N, empty fields) submitted from 1-16 connections with the credit service ok / slow / hanging for seconds / dropping the connection after reading / answering 500 / down, plus a deterministic queue-full scenario (verifier held at a gate); a case is a submitted triple, non-trivial when its forwarding (or absence) at the fake credit service was decided after all forwarding goroutines had ended and compared byte for byte", samples...)
 }
 
+// partReceiptsRealBinary: the wiring in cmd/main.go (receipt channel, receipt
+// handler started, credit-service endpoint from the configuration).
+func partReceiptsRealBinary(c *check.Ctx, a *acc) {
+	bin, err := c.WS.Build("real", "plain")
+	if err != nil {
+		c.Inconc("real build failed: " + err.Error())
+		return
+	}
+	defer func() {
+		if r := recover(); r != nil {
+			c.Inconc(fmt.Sprint("C19 real binary: ", r))
+		}
+	}()
+	hds, err := fakes.NewHDS()
+	if err != nil {
+		panic(err)
+	}
+	defer hds.Close()
+	ncs, err := fakes.NewNCS("ok")
+	if err != nil {
+		panic(err)
+	}
+	defer ncs.Close()
+	p, err := c.WS.StartReal(bin, sut.RealOpts{HDS: hds.URL(), NCS: ncs.URL(), Name: "realrcpt"})
+	if err != nil {
+		panic(err)
+	}
+	defer p.Kill()
+	for k := 0; k < 1000 && hds.Secret() == ""; k++ {
+		time.Sleep(10 * time.Millisecond)
+	}
+	if hds.Secret() == "" {
+		panic("the real binary did not register")
+	}
+	token := signJWT("HS256", hds.Secret(), map[string]any{"alg": "HS256", "typ": "JWT"}, map[string]any{"exp": time.Now().Add(time.Hour).Unix()})
+	cl, err := scen.DialReal(p, token)
+	if err != nil {
+		panic(err)
+	}
+	defer cl.Close()
+	cases := receiptCases(rand.New(rand.NewSource(c.Seed*31+7)), "real", 36)
+	valid, invalid := 0, 0
+	for _, rc := range cases {
+		a, _, err := cl.Do(&hagallpb.ReceiptRequest{Type: d.TReceiptReq, Timestamp: d.NewTag(), RequestId: cl.NextReqID(), Receipt: rc.Receipt, Hash: rc.Hash, Signature: rc.Sig})
+		if err != nil || a == nil {
+			c.Report(c19f("answer/none", "real-binary", "real binary: submitting %s got no answer (%v)", rc.Name, err))
+			return
+		}
+	}
+	if !awaitForwards(p) {
+		c.Inconc("C19 real binary: forwarding goroutines did not finish")
+		return
+	}
+	byText := map[string]int{}
+	for _, po := range ncs.Posts() {
+		byText[po.Receipt]++
+	}
+	for _, rc := range cases {
+		if rc.Receipt == "" {
+			continue
+		}
+		switch {
+		case rc.Valid && byText[rc.Receipt] != 1:
+			c.Report(c19f("forward/real-binary-valid-not-forwarded-once", "real-binary", "real binary: the valid receipt %q was POSTed %d times to the configured credit service", rc.Receipt, byText[rc.Receipt]))
+		case !rc.Valid && byText[rc.Receipt] != 0:
+			c.Report(c19f("forward/invalid-receipt-forwarded", rc.Name, "real binary: the %s triple was POSTed to the credit service", rc.Name))
+		}
+		if rc.Valid {
+			valid++
+		} else {
+			invalid++
+		}
+	}
+	c.Coverage["real_binary_receipts_valid"] = valid
+	c.Coverage["real_binary_receipts_invalid"] = invalid
+	a.add(len(cases), valid+invalid, "E7: the same triples submitted to the real binary (cmd/main.go wiring of the receipt queue, the receipt handler and HAGALL_NCS_ENDPOINT) with a fake credit service: valid ones POSTed exactly once, invalid ones never",
+		map[string]any{"engine": "C19 real binary", "valid": valid, "invalid": invalid})
+}
+
 func init() {
 	registry["C19"] = func(c *check.Ctx) int {
 		c.Level = "fault_enumeration"
 		a := &acc{}
 		partReceipts(c, a)
+		partReceiptsRealBinary(c, a)
 		return a.finish(c)
 	}
 }
